@@ -21,6 +21,9 @@ pub mod c25;
 pub mod c28;
 pub mod c29;
 pub mod exh;
+pub mod c22;
+pub mod c30;
+pub mod c31;
 
 pub fn all() -> Vec<Prop> {
     vec![
@@ -43,6 +46,9 @@ pub fn all() -> Vec<Prop> {
         c25::prop(),
         c28::prop(),
         c29::prop(),
+        c22::prop(),
+        c30::prop(),
+        c31::prop(),
     ]
 }
 
@@ -50,6 +56,8 @@ pub fn all() -> Vec<Prop> {
 pub fn aux(id: &str, args: &[String]) -> i32 {
     match id {
         "C14" => c14::aux(args),
+        "C22" => c22::aux(args),
+        "C31" => c31::aux(args),
         _ => {
             eprintln!("no aux entry for {}", id);
             4
